@@ -38,10 +38,12 @@ func (m *Mutex) Lock() {
 	m.sync()
 	if t.quiet > 0 && !m.held {
 		m.held, m.owner = true, t.id
+		s.acc(t, addr(m), true)
 		return
 	}
 	s.point(t, &pend{kind: opLock, mu: m})
 	m.held, m.owner = true, t.id
+	s.acc(t, addr(m), true)
 }
 
 func (m *Mutex) TryLock() bool {
@@ -54,6 +56,7 @@ func (m *Mutex) TryLock() bool {
 	}
 	m.sync()
 	pt(t, "trylock")
+	s.acc(t, addr(m), true)
 	if m.held {
 		return false
 	}
@@ -76,6 +79,7 @@ func (m *Mutex) Unlock() {
 		panic(fatalError("sync: unlock of unlocked mutex"))
 	}
 	m.held = false
+	s.acc(t, addr(m), true)
 	pt(t, "unlock")
 }
 
@@ -110,10 +114,12 @@ func (m *RWMutex) Lock() {
 	m.sync()
 	if t.quiet > 0 && !m.wheld && m.readers == 0 {
 		m.wheld = true
+		s.acc(t, addr(m), true)
 		return
 	}
 	s.point(t, &pend{kind: opRLock, rw: m, what: "wlock"})
 	m.wheld = true
+	s.acc(t, addr(m), true)
 }
 
 func (m *RWMutex) Unlock() {
@@ -131,6 +137,7 @@ func (m *RWMutex) Unlock() {
 		panic(fatalError("sync: Unlock of unlocked RWMutex"))
 	}
 	m.wheld = false
+	s.acc(t, addr(m), true)
 	pt(t, "unlock")
 }
 
@@ -146,10 +153,12 @@ func (m *RWMutex) RLock() {
 	m.sync()
 	if t.quiet > 0 && !m.wheld {
 		m.readers++
+		s.acc(t, addr(m), true)
 		return
 	}
 	s.point(t, &pend{kind: opRLock, rw: m, what: "rlock"})
 	m.readers++
+	s.acc(t, addr(m), true)
 }
 
 func (m *RWMutex) RUnlock() {
@@ -169,6 +178,7 @@ func (m *RWMutex) RUnlock() {
 		panic(fatalError("sync: RUnlock of unlocked RWMutex"))
 	}
 	m.readers--
+	s.acc(t, addr(m), true)
 	pt(t, "runlock")
 }
 
@@ -179,6 +189,7 @@ func (m *RWMutex) TryLock() bool {
 	}
 	m.sync()
 	pt(t, "trylock")
+	s.acc(t, addr(m), true)
 	if m.wheld || m.readers > 0 {
 		return false
 	}
@@ -193,6 +204,7 @@ func (m *RWMutex) TryRLock() bool {
 	}
 	m.sync()
 	pt(t, "tryrlock")
+	s.acc(t, addr(m), true)
 	if m.wheld {
 		return false
 	}
@@ -233,6 +245,7 @@ func (w *WaitGroup) Add(d int) {
 	}
 	w.sync()
 	w.n += d
+	s.acc(t, addr(w), true)
 	if w.n < 0 {
 		panic(fatalError("sync: negative WaitGroup counter"))
 	}
@@ -252,6 +265,7 @@ func (w *WaitGroup) Wait() {
 	}
 	w.sync()
 	s.point(t, &pend{kind: opWGWait, wg: w})
+	s.acc(t, addr(w), false)
 }
 
 // Once mirrors sync.Once.
@@ -280,17 +294,21 @@ func (o *Once) Do(f func()) {
 	}
 	if o.done {
 		pt(t, "once")
+		s.acc(t, addr(o), false)
 		return
 	}
 	s.point(t, &pend{kind: opOnce, once: o})
 	if o.done {
+		s.acc(t, addr(o), false)
 		return
 	}
+	s.acc(t, addr(o), true)
 	o.running = true
 	defer func() {
 		o.done = true
 		o.running = false
 		o.real.Do(func() {})
+		s.acc(t, addr(o), true)
 	}()
 	f()
 }
@@ -336,8 +354,10 @@ func (c *Cond) Wait() {
 	c.sync()
 	w := &condWaiter{t: t}
 	c.waiters = append(c.waiters, w)
+	s.acc(t, addr(c), true)
 	c.L.Unlock()
 	s.point(t, &pend{kind: opCondWait, cond: w})
+	s.acc(t, addr(c), true)
 	c.L.Lock()
 }
 
@@ -352,6 +372,7 @@ func (c *Cond) Signal() {
 	}
 	c.sync()
 	pt(t, "signal")
+	s.acc(t, addr(c), true)
 	for len(c.waiters) > 0 {
 		w := c.waiters[0]
 		c.waiters = c.waiters[1:]
@@ -373,6 +394,7 @@ func (c *Cond) Broadcast() {
 	}
 	c.sync()
 	pt(t, "broadcast")
+	s.acc(t, addr(c), true)
 	for _, w := range c.waiters {
 		w.signalled = true
 	}
@@ -384,16 +406,23 @@ type Map struct {
 	m sync.Map
 }
 
-func (m *Map) Load(k any) (any, bool)           { Yield(); return m.m.Load(k) }
-func (m *Map) Store(k, v any)                   { Yield(); m.m.Store(k, v) }
-func (m *Map) LoadOrStore(k, v any) (any, bool) { Yield(); return m.m.LoadOrStore(k, v) }
-func (m *Map) LoadAndDelete(k any) (any, bool)  { Yield(); return m.m.LoadAndDelete(k) }
-func (m *Map) Delete(k any)                     { Yield(); m.m.Delete(k) }
-func (m *Map) Swap(k, v any) (any, bool)        { Yield(); return m.m.Swap(k, v) }
-func (m *Map) CompareAndSwap(k, o, n any) bool  { Yield(); return m.m.CompareAndSwap(k, o, n) }
-func (m *Map) CompareAndDelete(k, o any) bool   { Yield(); return m.m.CompareAndDelete(k, o) }
+func (m *Map) acc(w bool) {
+	if t := me(); t != nil && !t.killed {
+		pt(t, "sync.Map")
+		s.acc(t, addr(m), w)
+	}
+}
+
+func (m *Map) Load(k any) (any, bool)           { m.acc(false); return m.m.Load(k) }
+func (m *Map) Store(k, v any)                   { m.acc(true); m.m.Store(k, v) }
+func (m *Map) LoadOrStore(k, v any) (any, bool) { m.acc(true); return m.m.LoadOrStore(k, v) }
+func (m *Map) LoadAndDelete(k any) (any, bool)  { m.acc(true); return m.m.LoadAndDelete(k) }
+func (m *Map) Delete(k any)                     { m.acc(true); m.m.Delete(k) }
+func (m *Map) Swap(k, v any) (any, bool)        { m.acc(true); return m.m.Swap(k, v) }
+func (m *Map) CompareAndSwap(k, o, n any) bool  { m.acc(true); return m.m.CompareAndSwap(k, o, n) }
+func (m *Map) CompareAndDelete(k, o any) bool   { m.acc(true); return m.m.CompareAndDelete(k, o) }
 func (m *Map) Range(f func(k, v any) bool) {
-	Yield()
+	m.acc(false)
 	type kv struct {
 		k, v any
 		s    string
@@ -419,6 +448,9 @@ type Pool struct {
 }
 
 func (p *Pool) Get() any {
+	if t := me(); t != nil && !t.killed {
+		s.acc(t, addr(p), true)
+	}
 	p.mu.Lock()
 	if n := len(p.items); n > 0 {
 		x := p.items[n-1]
@@ -436,6 +468,9 @@ func (p *Pool) Get() any {
 func (p *Pool) Put(x any) {
 	if x == nil {
 		return
+	}
+	if t := me(); t != nil && !t.killed {
+		s.acc(t, addr(p), true)
 	}
 	p.mu.Lock()
 	if len(p.items) < 64 {
